@@ -35,6 +35,7 @@
  *   S                               step the loop to the idle point                              -> IDLE t
  *   T <us>                          advance virtual time by us (running timers)
  *   W <max_us>                      advance until every issued request reported, at most max_us  -> WAIT t dt done
+ *   F                               free the evdns_base (fail_requests=1) and the event_base now (a case may build several)
  *   E                               end of case: free everything, census                         -> LEAK n / END
  * Trace: Q <srv> <t> <hex>  (every datagram captured), A <srv> <t> <rule> <hex> (every reply sent),
  *        GCB <rid> <t> <err> <n> {fam/socktype/proto/addrlen/addrhex/port/scope/flags/canonhex}*, RET <rid> <t> <pending>
@@ -260,6 +261,30 @@ static int service_all(void)
 	return did;
 }
 
+/* Nothing may leave the loopback fake servers: sendto() on a nameserver socket whose address is not one of the fake
+ * servers, and every TCP connect(), fail with ENETUNREACH (sysfault plan installed in main). */
+static int foreign_fd(int fd)
+{
+	int i, t = 0;
+	socklen_t l = sizeof(t);
+	for (i = 0; i < NSRV; i++) if (fd == g_srv[i]) return 0;
+	if (g_dns && g_dns->server_head) {
+		struct nameserver *ns = g_dns->server_head;
+		do {
+			if (ns->socket == fd) {
+				struct sockaddr_in *sin = (struct sockaddr_in *)&ns->address;
+				if (sin->sin_family == AF_INET && sin->sin_addr.s_addr == htonl(INADDR_LOOPBACK))
+					for (i = 0; i < NSRV; i++) if (ntohs(sin->sin_port) == g_port[i]) return 0;
+				vh_stat("sends_to_foreign_nameserver_blocked");
+				return 1;
+			}
+			ns = ns->next;
+		} while (ns != g_dns->server_head);
+	}
+	if (getsockopt(fd, SOL_SOCKET, SO_TYPE, &t, &l) == 0 && t == SOCK_STREAM) { vh_stat("tcp_connects_blocked"); return 1; }
+	return 0;
+}
+
 /* ------------------------------------------------------------------ stepping */
 static void settle(void)
 {
@@ -432,6 +457,27 @@ static void dump(void)
 }
 
 /* ------------------------------------------------------------------ commands */
+static void free_all(void)
+{
+	if (g_dns) {
+		/* Pending user lookups are cancelled first (each reports EVUTIL_EAI_CANCEL and is freed), then the base is freed
+		 * with fail_requests=0.  Deliberately not evdns_base_free(base, 1): with a nameserver probe in flight that schedules
+		 * nameserver_probe_callback for an already freed nameserver (heap-use-after-free at evdns.c nameserver_probe_callback)
+		 * - a defect of the request engine outside C38/C39 (passed on to the C34 owner). */
+		int pending = !all_reported(), i;
+		for (i = 0; i < MAXREQ; i++)
+			if (g_req[i].issued && !g_req[i].done && g_req[i].handle) evdns_getaddrinfo_cancel(g_req[i].handle);
+		if (pending) settle();
+		evdns_base_free(g_dns, 0);
+		g_dns = NULL;
+		if (pending) vh_stat("bases_freed_with_pending_requests");
+	}
+	settle();
+	advance(10 * 1000000LL, 0);
+	if (!all_reported()) { printf("NEVERREPORTED\n"); vh_stat("requests_never_reported"); }
+	if (g_evb) { event_base_free(g_evb); g_evb = NULL; }
+	memset(g_req, 0, sizeof(g_req));
+}
 #define MAXTOK 16
 static int split(char *line, char **tok, int max)
 {
@@ -496,6 +542,7 @@ static void run_cmd(char *line)
 		evdns_getaddrinfo_cancel(u->handle);
 		vh_stat("gai_cancels");
 	} else if (!strcmp(c, "B")) {
+		if (g_dns || g_evb) die("B while a base is alive");
 		g_evb = event_base_new();
 		if (!g_evb) die("event_base_new");
 		g_dns = evdns_base_new(g_evb, n >= 2 ? (int)strtol(tok[1], NULL, 0) : 0);
@@ -560,6 +607,9 @@ static void run_cmd(char *line)
 		r->max_uses = atol(tok[8]);
 	} else if (!strcmp(c, "DUMP")) {
 		dump();
+	} else if (!strcmp(c, "F")) {
+		free_all();
+		printf("FREED %lld\n", (long long)now_rel());
 	} else if (!strcmp(c, "S")) {
 		settle();
 		printf("IDLE %lld\n", (long long)now_rel());
@@ -611,16 +661,7 @@ static void case_begin(long idx)
 }
 static void case_end(void)
 {
-	if (g_dns) {
-		int pending = !all_reported();
-		evdns_base_free(g_dns, 1);
-		g_dns = NULL;
-		if (pending) vh_stat("cases_freed_with_pending_requests");
-	}
-	settle();
-	advance(10 * 1000000LL, 0);
-	if (!all_reported()) { printf("NEVERREPORTED\n"); vh_stat("requests_never_reported"); }
-	if (g_evb) { event_base_free(g_evb); g_evb = NULL; }
+	free_all();
 	printf("LEAK %ld\n", mf_live_blocks - g_mf_base);
 	if (mf_live_blocks != g_mf_base) vh_stat("cases_with_leak");
 	printf("END %ld\n", g_case);
@@ -643,6 +684,9 @@ int main(int argc, char **argv)
 	signal(SIGPROF, cpu_watchdog);
 	g_fbuf = malloc(FILECAP + 1); g_fbuf2 = malloc(FILECAP + 64);
 	mk_servers();
+	sf_fd_filter = foreign_fd;
+	sf_plan(SF_sendto, 0, SFA_ERRNO, ENETUNREACH);
+	sf_plan(SF_connect, 0, SFA_ERRNO, ENETUNREACH);
 	/* warm-up: one-time global allocations must not count as a leak */
 	{
 		struct evutil_addrinfo hints;
@@ -653,7 +697,9 @@ int main(int argc, char **argv)
 		g_req[0].issued = 1;
 		evdns_getaddrinfo(g_dns, "127.0.0.1", "80", &hints, gai_cb, (void *)(intptr_t)0);
 		hints.ai_flags = EVUTIL_AI_ADDRCONFIG;
-		evdns_getaddrinfo(g_dns, "127.0.0.1", "http", &hints, gai_cb, (void *)(intptr_t)0);
+		g_req[1].issued = 1;
+		evdns_getaddrinfo(g_dns, NULL, "http", &hints, gai_cb, (void *)(intptr_t)1);
+		memset(g_req, 0, sizeof(g_req));
 		evdns_base_free(g_dns, 0); g_dns = NULL; event_base_free(g_evb); g_evb = NULL;
 		printf("WARMUPDONE\n");
 	}
